@@ -138,6 +138,21 @@ def _h2(ctx):
                 reason = H2_TABLE.get(key)
                 ctx.check(reason is not None, R, m, pm.get(id(x)), f"float literal {x.value!r} on the cost path has no recorded justification: clamping or comparing costs with an absolute magnitude breaks scale invariance for large k",
                           f"frozen: {reason}")
+    # implicit absolute thresholds: numpy's allclose / isclose default to atol=1e-8, math.isclose to abs_tol=0
+    for rel in PATH_MODULES:
+        m = ctx.module(rel, R)
+        for c in [x for x in ast.walk(m.tree) if isinstance(x, ast.Call) and isinstance(x.func, ast.Attribute) and x.func.attr in ("allclose", "isclose")]:
+            base = norm(c.func.value)
+            if base in ("np", "numpy"):
+                at = kwarg(c, "atol")
+                ok = isinstance(at, ast.Constant) and at.value == 0
+                what = "atol (default 1e-8)"
+            else:
+                at = kwarg(c, "abs_tol")
+                ok = at is None or (isinstance(at, ast.Constant) and at.value == 0)
+                what = "abs_tol"
+            ctx.check(ok, R, m, c, f"`{norm(c)[:90]}` compares cost-like values with an absolute tolerance ({what}): costs scaled down far enough all look equal (an objective column is treated as constant and drops out of "
+                      "the filter), so the optimum no longer scales with the cost parameters", "closeness test is purely relative")
     ctx.floor(R, 3)
 
 
@@ -147,6 +162,7 @@ def check(ctx):
 
 
 VARIANTS = [
+    {"kind": "F", "name": "near-constant-columns-skipped-absolutely", "rule": "C19-H2", "edits": [("accelforge/mapper/FFM/_pareto_df/pareto.py", "        if len(arr) <= 1 or (arr == arr[0]).all():\n            continue\n", "        if len(arr) <= 1 or (arr == arr[0]).all():\n            continue\n        if arr.dtype.kind == \"f\" and np.allclose(arr, arr[0], rtol=0):\n            continue\n")]},
     {"kind": "F", "name": "action-scale-elif", "rule": "C19-H1", "edits": [(COMP, "            if action.energy_scale != 1:\n                energy *= action.energy_scale", "            elif action.energy_scale != 1:\n                energy *= action.energy_scale")]},
     {"kind": "S", "name": "scale-guard-dropped", "edits": [(COMP, "            if action.energy_scale != 1:\n                energy *= action.energy_scale\n                messages.append(f\"Scaling {self.name} energy by {action.energy_scale=}\")", "            energy *= action.energy_scale")]},
     {"kind": "F", "name": "energy-plus-epsilon", "rule": "C19-H1", "edits": [(EN, "        energy_result[key] = counts.total * energy_per_ac", "        energy_result[key] = counts.total * energy_per_ac + 1e-9")]},
